@@ -526,11 +526,31 @@ def same_process_records(texts, variant):
     return rc, segs
 
 
+def recs_agree(x, y):
+    """two lists of records (tag, [block,] hex floats ...): same shape, numbers equal to 1e-12 (1 + |value|) -- the runs are
+    deterministic and normally agree bit for bit; what this stage is after are values of ANOTHER model, which are far apart"""
+    if x is None or y is None or len(x) != len(y):
+        return x == y
+    for a, b in zip(x, y):
+        if len(a) != len(b):
+            return False
+        for u, v in zip(a, b):
+            if u == v:
+                continue
+            try:
+                fu, fv = float.fromhex(u), float.fromhex(v)
+            except ValueError:
+                return False
+            if not abs(fu - fv) <= 1e-12 * (1.0 + abs(fu)):
+                return False
+    return True
+
+
 def same_process_stage(chk, quick, good):
     """Several Hamiltonians per process (a temperature or parameter sweep, a self-consistency loop): what one object reports must not
     depend on which models the process diagonalised before.  good: [(variant, text, number of modes)] of scenarios the main part has
     certified in a process of their own; they are grouped by Fock-space size, the models of a group are analysed in one process in
-    the order A B A, and every record is compared, bit for bit, with the one-model-per-process run of the same scenario."""
+    the order A B A, and every record is compared (1e-12) with the one-model-per-process run of the same scenario."""
     groups = {}
     for variant, text, nm in good:
         groups.setdefault((variant, nm), [])
@@ -547,7 +567,7 @@ def same_process_stage(chk, quick, good):
             for t in (a, b):
                 rc, segs = same_process_records([t], variant)
                 single.append(segs[0] if rc == 0 and segs else None)
-            if single[0] is None or single[1] is None or single[0] == single[1]:
+            if single[0] is None or single[1] is None or all(recs_agree(single[0].get(t), single[1].get(t)) for t in SAME_PROCESS_TAGS):
                 continue
             rc, segs = same_process_records([a, b, a], variant)
             done += 1
@@ -559,7 +579,7 @@ def same_process_stage(chk, quick, good):
                               {"check": "C03", "kind": "same-process", "variant": variant, "scenarios": [a, b, a]})
                 continue
             for pos, (seg, ref, t) in enumerate(zip(segs, (single[0], single[1], single[0]), (a, b, a))):
-                bad = next((tag for tag in SAME_PROCESS_TAGS if seg.get(tag) != ref.get(tag)), None)
+                bad = next((tag for tag in SAME_PROCESS_TAGS if not recs_agree(seg.get(tag), ref.get(tag))), None)
                 if bad:
                     got, want = seg.get(bad), ref.get(bad)
                     i = next((i for i in range(min(len(got or []), len(want or []))) if got[i] != want[i]), 0)
@@ -570,7 +590,7 @@ def same_process_stage(chk, quick, good):
                                      " ".join(got[i][1:6] if got else []), " ".join(want[i][1:6] if want else [])),
                                   {"check": "C03", "kind": "same-process", "variant": variant, "scenarios": [a, b, a]})
                     break
-    chk.extra["several_models_per_process"] = {"pairs": done, "order": "A B A", "records_compared_bit_for_bit": list(SAME_PROCESS_TAGS)}
+    chk.extra["several_models_per_process"] = {"pairs": done, "order": "A B A", "records_compared_to_1e-12": list(SAME_PROCESS_TAGS)}
 
 
 def run(chk):
